@@ -181,6 +181,8 @@ func c10WriterCode93(r *fw.Rec, w gozxing.Writer, text string) bool {
 // B. readers on reference-rendered UPC/EAN symbols
 // ---------------------------------------------------------------------------
 
+var c10MultiSeen = map[string]bool{}
+
 type c10Readers struct {
 	own   map[*odUPCEAN]gozxing.Reader
 	multi gozxing.Reader
@@ -225,8 +227,18 @@ func c10Judge(r *fw.Rec, s *odUPCEAN, who string, carried string, res *gozxing.R
 		// formats try the symbol; what they make of it is tallied, not charged (see Assume)
 		if gf == s.format {
 			r.Tally("multi_" + s.name + "_symbol_read_" + rev + "as_other_number_of_same_format")
-		} else {
-			r.Tally("dont_care_multi_" + s.name + "_symbol_read_" + rev + "as_number_of_format_" + gf.String())
+			return true, false
+		}
+		r.Tally("multi_" + s.name + "_symbol_read_" + rev + "as_number_of_format_" + gf.String())
+		if !valid {
+			// a stale symbol must not be read as any number: the multi-format reader lets the other
+			// formats' decoders try it and one of them accepts (tallied class, one event per case)
+			if !c10MultiSeen[r.ID] {
+				c10MultiSeen[r.ID] = true
+				r.Violation("model-mismatch", "multi-upcean:stale-symbol-read-as-number-of-other-format", fmt.Sprintf("multi-format UPC/EAN reader (no hints) returned %s (%v) for a %s symbol carrying %s, whose check digit does not verify (%s)", got, gf, s.name, carried, cfg),
+					map[string]interface{}{"symbology": s.name, "symbol_carries": carried, "returned": got, "returned_format": gf.String(), "rendering": cfg, "modules": onedref.PatternString(s.pattern(carried))})
+			}
+			return false, true
 		}
 		return true, false
 	}
@@ -835,7 +847,7 @@ func c10(c *fw.Ctx) {
 	c.Rule("writers: seeded payloads of EAN-13/EAN-8/UPC-A/UPC-E (incl. all-0, all-9, zero-rich) and all (thorough) / 200 000 sampled (quick) UPC-E numbers and EAN-8 payloads: the bars drawn must equal the onedref pattern carrying the independent mod-10 digit (UPC-E: of the expanded number), all nine wrong supplied digits must be refused; Code 128: drawn bars parsed with the reference width table, check character == mod-103 of the drawn characters and characters spell the text; Code 93: bars == reference symbol with C and K. Readers: symbols rendered from onedref patterns (white quiet zone >= 10 modules, 2-3 px per module, 4-10 rows): the valid number (control) and every one-digit substitution carried by a well-formed symbol; sweeps at 1 row: every UPC-E symbol (2 number systems x 10^6 digit strings x 10 parity patterns) and every 8-digit EAN-8 string in thorough, stratified samples in quick; Code 128 / Code 93: every symbol-character position (start, data, check) x every other value; UPC-E expansion of all 2*10^6 numbers and expand(suppress(n)) for all numbers of the four GS1 suppression rules; add-ons: 100 EAN-2 values x 4 number-set choices on each of the four main symbologies, EAN-5 values x all 32 number-set patterns")
 	c.Assume("reader oracle: a number may be returned only if it is exactly the number the symbol carries and onedref says its check digit verifies; any error is accepted for every other symbol. Controls (valid reference symbols) that are not read make the case inconclusive, not failed")
 	c.Assume("UPC-E substitutions are defined on the symbol: digits 1..6 are replaced under the unchanged parity pattern, the check digit by drawing the parity pattern of the other digit, the number system by 0<->1 (the only other value a UPC-E symbol can carry): 1+54+9 = 64 per number; the oracle recomputes validity of the carried number (a sixth-digit substitution can change the zero-suppression layout onto a valid number)")
-	c.Assume("the verdict is on the matching reader. The multi-format reader (no hints) decodes the same images: returning the carried stale number itself is charged (check not enforced); a number of another format (e.g. the EAN-8 decoder reading digits 1-4 and 7-10 of a 12-digit symbol past an unanchored centre-guard search, check digit passing by chance) is outside the matching-reader oracle and only tallied (dont_care_multi_*); UPC-A reported as EAN-13 '0'+number counts as the carried number")
+	c.Assume("the verdict is on the matching reader. The multi-format reader (no hints) decodes the same images: returning the carried stale number itself is charged (check not enforced); a number of another format for a STALE symbol (e.g. the EAN-8 decoder reading digits 1-4 and 7-10 of a 12-digit symbol past an unanchored centre-guard search, check digit passing by chance) is charged under the signature multi-upcean:stale-symbol-read-as-number-of-other-format (every occurrence tallied as multi_*_symbol_read_*as_number_of_format_*, one event per case); UPC-A reported as EAN-13 '0'+number counts as the carried number")
 	c.Assume("don't care (DESIGN C10): a 5-digit add-on with wrong parity reported as absent, as a 2-digit add-on or as another value; only 'reported as the 5-digit value' is charged. Same for a wrong-parity 2-digit add-on reported as another value")
 	c.Assume("Code 128 / Code 93 substitutions: 'same text' or any error are accepted, only different text is charged")
 	c.Assume("signature upce:stale-check-read-reversed-as-other-number: at >= 2 px per module the UPC-E reader, after refusing a stale-check symbol, retries the row reversed and matches digit windows that are 5..10 instead of 7 modules wide within its variance limits (0.48 average / 0.7 individual); about 0.2 % of all stale symbols then pass the check digit of the number so read. Every occurrence is tallied (stale_symbol_read_reversed-as_other_number_*), at most one event per case is emitted; denominators: substitutions_stale_upce, sweep_upce_stale_symbols_2px, upce_cases_decoding_stale_symbols_at_2px_or_more")
